@@ -8,7 +8,7 @@ from __future__ import annotations
 import ast
 from fractions import Fraction as Fr
 
-from sa.algebra import Und, Rat, rat_of, ONE, PW, ObjV
+from sa.algebra import Und, Rat, rat_of, ONE, PW, ObjV, as_pw
 from sa.core import AnalysisError, unparse, walk_no_nested, const_str
 from . import kin
 
@@ -112,6 +112,7 @@ def check(repo, col, tier):
                     col.bad("R-C04-eq", fi, f"{fn}: `{kind_}` inside a published rate expression",
                             f"`{unparse(node_)[:70]}` saturates a quantity of {name}.{fn}; the published equation has no such "
                             f"bound, so the kinetics differ wherever the bound is active", node=node_)
+                clipped_exponentials(repo, col, "R-C04-eq", ev, fi, name, fn, (ra, rb))
                 for i, (g, r, lab) in enumerate(zip(got, (ra, rb), ("first", "second"))):
                     programs += 1
                     _guard_regions(col, ev, fi, name, fn, g, r, args)
@@ -150,6 +151,33 @@ def check(repo, col, tier):
     _check_rename(repo, col)
     col.info["programs"] = programs
     col.info["disagreements_checked"] = sum(1 for o in col.obs if o.rule == "R-C04-eq" and o.status != "DISCHARGED")
+
+
+def clipped_exponentials(repo, col, R, ev, fi, name, fn, refs):
+    """Every exponential in the mechanisms is save_exp(u) = exp(min(u, 20)).  Two algebraically equal ways of writing a
+    rate (multiplying numerator and denominator by exp(c), merging exp(a)/exp(b) into exp(a-b)) therefore differ as soon as
+    one of THEIR exponents exceeds 20, and with steeper exponents that happens at smaller voltages (inside [-200, 200] mV).
+    Obligation: the exponent arguments that the gate function itself hands to save_exp (outside the singularity helpers)
+    are exactly arguments that occur in the published form; a new exponent is a change of the kinetics at large |v|."""
+    code_args = []
+    for kind_, x, stack, node in ev.atoms.clip_sites:
+        if kind_ != "clip" or not stack or not stack[-1].endswith("save_exp") or len(stack) < 2 or not stack[-2].endswith("." + fn):
+            continue
+        for _c, r in as_pw(x).pieces:
+            code_args.append((r, node))
+    ev2 = kin.new_eval(repo)
+    for r in refs:
+        kin.ref(ev2, r)
+    ref_args = list(ev2.atoms.exp_args)
+    extra = []
+    for r, node in code_args:
+        if not any(r.eq(q) for q in ref_args):
+            extra.append((r, node))
+    col.check(not extra, R, fi, f"{fn}: exponentials taken by the gate function are those of the published form",
+              f"{len(code_args)} clipped exponentials, all published",
+              f"{name}.{fn} evaluates save_exp({extra[0][0] if extra else ''}), an exponent that the published form "
+              f"`{' | '.join(refs)}` does not contain: exp is clipped at 20, so this rewriting saturates at other voltages than the published "
+              f"one (the rate differs inside the voltage range although the formulas are algebraically equal)", node=extra[0][1] if extra else fi.node)
 
 
 def update_laws(repo, col, R, name, sp, cinfo, kind) -> int:
